@@ -35,6 +35,7 @@ type c16Case struct {
 	Alt     *c16File  `json:"alt,omitempty"`
 	Comps   []c16File `json:"comps,omitempty"`
 	Layouts []c16File `json:"layouts,omitempty"`
+	Scen    *c16Scen  `json:"scen,omitempty"` // part scen (c16_scen.go)
 }
 
 // ---- sources
